@@ -95,6 +95,13 @@ CHECKS = {
     note="Trusted: TLC, BigInt/IEEE/Reals modules (self-tested: mpmath at 400 bits inside every enclosure, with/without Java overrides identical, sabotaged laws caught). The statement's 'exhaustive in float32' is NOT achieved by TLC (3-7k events/s): 7e4 events quick, 1e6 thorough, sampled + boundary-directed + screened; rigorous per input. Leniencies: rounding cells closed (ties either way), sign of an exact zero free, undecided comparisons (none observed) never alarm.",
     design="6/C02"),
 
+ "C05": dict(
+    category="translation_validation",
+    technique="TLA+ spec FAPrinter.tla (an emitted program as a behaviour of a single-assignment machine over the real graph's node table, the spec's own Implements tables per target, value semantics of literals, C++ literal typing and usual arithmetic conversions) and FAPrinterEval.tla (bit-exact IEEE evaluation of a node table); TLC model-checks the transcribed printing algorithm on all small DAGs (MC_Printer) and the live template tables extracted from the working tree (MC_TargetTables); TLC-generated graphs and every shipped signature are printed by the real package, parsed by independent parsers (ast; a recursive-descent C++ subset parser), compiled and executed, and judged per program by Trace_Printer.tla",
+    text="Clauses per emitted program (python, numpy, cpp; debug 0/1): loads/compiles; every variable assigned exactly once before first use; a variable occurrence denotes the operand node required at its position (distinct sub-expressions never share a variable); the operator realising each node is the one the spec's own table of the target language gives, operands in order, constants with their value AND type/precision, declared types, assertion targets; executing the program returns bit-identical results to the direct evaluation of the graph - decided by the spec's own IEEE evaluation (exec_ieee) for graphs over IEEE-exact kinds and by differential execution against the harness's interpreter / a reference C++ rendering (exec_equal) for graphs with libm calls. U1: all connected DAGs with <= 4 (thorough 5) nodes x forced-reference policies through the transcription of compute_need_ref + PrinterBase.tostring; the live kind/constant tables of the three targets against the spec's tables (finds a misspelt template without a program). U2/U3: 204 shipped (function, signature, debug) programs + TLC-generated graphs covering every kind, named constant, dtype and sharing/naming policy (names equal to a parameter or to the printer's own `result`).",
+    note="Trusted: TLC, BigInt/IEEE, Python ast, the harness's C++ subset parser (an unknown form is exit 2), g++ -O0 -fno-fast-math -ffp-contract=off -frounding-math, and for clause exec_equal only the harness interpreter / reference C++ rendering. Wild-carded kinds (matched against the package's own template, listed in the evidence): sign, round, remainder (cpp), list, item. Not covered: list-valued programs, alt-context constants, long double. Known findings: see known_findings.d/C05.json (C++ float graphs computed with double literals was repaired; remaining: shared generated constant names, a reference name moving onto an argument, typeof_0, C++ compile failures on mixed/complex operands ...).",
+    design="6/C05"),
+
  "C09": dict(
     category="model_checking",
     technique="TLA+ spec FAPipeline.tla (generation requests against process-global state) model-checked by TLC; TLC-enumerated and simulated request histories executed in forked real interpreters under several PYTHONHASHSEED values; merged (request, text digest) logs validated by Trace_Pipeline.tla",
